@@ -1,6 +1,6 @@
 \* batch validation of recorded histories: 4 temperatures, 2 alternative table values per dimension
 CONSTANTS NT = 4  NV = 2  MaxLevel = 999
-  KindChoices <- TrNone  TempChoices <- TrNone  LinkPairs <- TrLinks
+  KindChoices <- TrNone  TempChoices <- TrNone  LinkPairs <- TrLinks  RampSteps <- TrRamp
 SPECIFICATION TSpec
 CONSTRAINT Progress
 POSTCONDITION Report
@@ -12,4 +12,5 @@ INVARIANT DensityShrinksBySquare
 INVARIANT MassPerHeightConserved
 INVARIANT ReadBack
 INVARIANT LinkEquality
+INVARIANT CopyIsFaithful
 CHECK_DEADLOCK FALSE
